@@ -120,15 +120,20 @@ def specField (n : Nat) (es : List Edge) (s t : Nat) (f : String) : Option (Stri
       pure ("mst", mstCheck vw w tr && w == (prim vw).1, false)
   | ["tri", k] => do
       let k ← k.toNat?
-      pure ("tri", k == trianglesDef vw, false)
+      -- the definition is cubic in n; above 64 nodes it is evaluated through the enumeration
+      -- proved equal to it on every well-formed view (`C26_triangles_impl_eq_def`)
+      pure ("tri", k == (if n ≤ 64 then trianglesDef vw else trianglesImpl vw), false)
   | ["lcc", l] => do
       let hs := if l == "-" then [] else l.splitOn ","
       let xs ← hs.mapM ratOfHex?
       if xs.length ≠ n then pure ("lcc", false, false) else
+      -- same remark as for `tri`: above 64 nodes through `lccImpl` (`C26_lcc_impl_eq_def`)
       let ok := (List.range n).all (fun u =>
-        let d := degDef vw u
-        let want : Rat := if d < 2 then 0 else (lccDefNum vw u : Rat) / ((d * (d - 1) / 2 : Nat) : Rat)
-        closeRel (xs.getD u 0) want)
+        let nd : Nat × Nat :=
+          if n ≤ 64 then
+            (let d := degDef vw u; if d < 2 then (0, 1) else (lccDefNum vw u, d * (d - 1) / 2))
+          else lccImpl vw u
+        closeRel (xs.getD u 0) ((nd.1 : Rat) / (nd.2 : Rat)))
       pure ("lcc", ok, false)
   | _ => none
 
